@@ -2,7 +2,7 @@
 import re
 
 from . import absint as A
-from .lib import PLUMBING, callee_allow, callers, status_const_of_ctor, try_edges, operand_local, closure_args_of_call
+from .lib import PLUMBING, callee_allow, callers, status_const_of_ctor, try_edges, operand_local, closure_args_of_call, result_split
 
 LEVEL = "proof"
 TECHNIQUE = "static analysis: exhaustive abstract interpretation of the MIR of matches / overlaps_with / from_until / request_extract_version over all weak orders of their version operands (finite exact abstraction), plus slices and censuses for routing and constructors"
@@ -260,10 +260,11 @@ def r5_routed_at_that_version(ctx):
         return
     vbb, vt = rvc[0]
     lbb, lt = look[0]
-    te = try_edges(hb, vt["dest"]["l"])
-    if not te:
-        ctx.lost(R, "`?` on request_version's result")
+    sp = result_split(hb, vt["dest"]["l"])
+    if not sp:
+        ctx.lost(R, "the Ok/Err split (`?` or match) of request_version's result")
         return
+    te = {"switch_bb": sp["switch_bb"], "cont": sp["ok"], "brk": sp["err"], "dest": sp["payload"]}
     vs = hb.slice(lt["args"][3], stop_at_calls=r"VersionPolicy::request_version$")
     badv = callee_allow(vs, PLUMBING + [r"VersionPolicy::request_version$"])
     ctx.check(R, "lookup-version-is-the-resolved-version", vs.has_call(r"VersionPolicy::request_version$") and not badv and vs.touches_local(te["dest"]),
